@@ -25,7 +25,6 @@ DesignsQuick == {
     NoDet(<<"fuel", "afuel">>, <<5, 3>>, 4),
     D(<<"fuel">>, <<10>>, 2),
     TopD(<<"shield", "fuel">>, <<4, 5>>, "plenum", 3, FALSE),        \* no dummy: the plenum on top is chopped
-    TopD(<<"fuel">>, <<5>>, "fuel", 4, FALSE),
     TopD(<<"fuel">>, <<5>>, "plenum", 4, TRUE) }                      \* no dummy + detailed: every call refused
 DesignsThorough == DesignsQuick \cup {
     D(<<"shield", "fuel", "plenum">>, <<3, 5, 4>>, 4),
@@ -35,7 +34,8 @@ DesignsThorough == DesignsQuick \cup {
     D(<<"fuel", "aclp">>, <<5, 3>>, 3),
     NoDet(<<"fuel", "plenum">>, <<5, 4>>, 3),
     TopD(<<"fuel", "fuel">>, <<5, 4>>, "shield", 3, FALSE),
-    TopD(<<"fuelb">>, <<6>>, "bigfuel", 4, FALSE) }
+    TopD(<<"fuelb">>, <<6>>, "bigfuel", 4, FALSE),
+    TopD(<<"fuel">>, <<5>>, "fuel", 4, FALSE) }
 DesignsEmit == {
     D(<<"fuel", "plenum">>, <<5, 4>>, 3),
     NoDet(<<"fuelb", "bigfuel">>, <<5, 5>>, 2),
